@@ -4,6 +4,7 @@ import sys
 import weakref
 
 from model import core, ref
+from simkit import fs as _fs
 from model.core import EXC_TYPES, MyDict, MyList, MySet, MyTuple, Norm, Opaque, Val, canon
 from model.stores import RT, STORE_CLASSES, NothingStored, render_instant
 
@@ -582,7 +583,7 @@ class Runtime:
         d = self.cfg.get("scratch")
         path = os.path.join(d, name)
         if not os.path.exists(path):
-            with open(path, "wb"):
+            with _fs.real_open(path, "wb"):
                 pass
         os.utime(path, ns=(int(round(t * 1e9)), int(round(t * 1e9))))
         kind = how.split(":", 1)[1] if ":" in how else "helper"
